@@ -485,6 +485,12 @@ DoCond(k, a, b) == LET cnd == store[k]  x == store[a]  y == store[b] IN
   /\ Push(Mk("cond", <<k, a, b>>, << >>, x.sh, x.fi,
              LAMBDA e, bd, c : LET p == cnd.val[e][<< >>] IN
                 IF ~CDef(p) THEN CU ELSE IF p = C1 THEN At(x, e, bd, c) ELSE At(y, e, bd, c)))
+\* atan2(f, g) for true scalars: for g > 0 it is atan(f / g); rational exactly when f = 0 there
+Atan2Val(z, w) == IF CDef(z) /\ CDef(w) /\ CIsReal(w) /\ CCmpDef(C0, w) /\ CLt(C0, w)
+                  THEN CMath("atan", CDiv(z, w)) ELSE CU
+DoAtan2(a, b) == LET x == store[a]  y == store[b] IN
+  /\ IsVal(x) /\ IsVal(y) /\ TrueScalar(x) /\ TrueScalar(y)
+  /\ Push(Mk("atan2", <<a, b>>, << >>, << >>, << >>, LAMBDA e, bd, c : Atan2Val(At(x, e, bd, c), At(y, e, bd, c))))
 DoMaxMin(op, a, b) == LET x == store[a]  y == store[b] IN
   /\ IsVal(x) /\ IsVal(y) /\ TrueScalar(x) /\ TrueScalar(y)
   /\ Push(Mk(op, <<a, b>>, << >>, << >>, << >>,
@@ -588,6 +594,7 @@ Next ==
             \/ \E op \in {"lt", "gt", "le", "ge", "eq", "ne"} \cap CurOps : DoCmp(op, a, b)
             \/ \E op \in {"and", "or"} \cap CurOps : DoAndOr(op, a, b)
             \/ \E op \in {"max", "min"} \cap CurOps : DoMaxMin(op, a, b)
+            \/ "atan2" \in CurOps /\ DoAtan2(a, b)
             \/ "list" \in CurOps /\ DoList(<<a, b>>)
             \/ "list" \in CurOps /\ MaxDim >= 3 /\ \E c \in Ids : NotFinal(c) /\ DoList(<<a, b, c>>)
             \/ "cond" \in CurOps /\ \E k \in Ids : DoCond(k, a, b)
